@@ -800,6 +800,13 @@ class Spec:
     def glom(self, target, **kw):
         scope = dict(self.scope)
         scope.update(kw.get('scope', {}))
+        # when handed the scope of a running glom call (e.g. scope=S),
+        # this is still a new evaluation: do not inherit the error
+        # bookkeeping of the calling one
+        for key in (NO_PYFRAME, LAST_CHILD_SCOPE, CUR_ERROR):
+            scope.pop(key, None)
+        if CHILD_ERRORS in scope:
+            scope[CHILD_ERRORS] = []
         kw['scope'] = ChainMap(scope)
         glom_ = scope.get(glom, glom)
         return glom_(target, self.spec, **kw)
